@@ -45,8 +45,25 @@ func setChunk(n int) {
 }
 
 type job struct {
-	p   refeval.Program
-	par int
+	p       refeval.Program
+	par     int
+	cluster bool // run on the in-process bigmachine cluster instead of the local executor
+}
+
+// execTag marks violations and counters of cluster runs.
+func (j job) execTag() string {
+	if j.cluster {
+		return "@cluster"
+	}
+	return ""
+}
+
+// sessKey is the runner's session key of the job.
+func (j job) sessKey() int {
+	if j.cluster {
+		return -j.par
+	}
+	return j.par
 }
 
 type result struct {
@@ -63,24 +80,34 @@ type runner struct {
 
 func newRunner() *runner { return &runner{sess: map[int]*exec.Session{}, runs: map[int]int{}} }
 
-func (r *runner) session(par int) *exec.Session {
-	if s := r.sess[par]; s != nil && r.runs[par] < 1500 {
-		r.runs[par]++
+func (r *runner) session(key int) *exec.Session {
+	limit := 1500
+	if key < 0 {
+		limit = 200
+	}
+	if s := r.sess[key]; s != nil && r.runs[key] < limit {
+		r.runs[key]++
 		return s
 	}
-	if s := r.sess[par]; s != nil {
+	if s := r.sess[key]; s != nil {
 		s.Shutdown()
 	}
-	r.sess[par] = exec.Start(exec.Local, exec.Parallelism(par))
-	r.runs[par] = 1
-	return r.sess[par]
+	if key < 0 {
+		// 2 machines x 2 procs: tasks of one run are spread over machines, so
+		// that shuffles and the result scan go through the codec and RPC.
+		r.sess[key] = exec.Start(exec.Bigmachine(vsys.New(2)), exec.Parallelism(-key))
+	} else {
+		r.sess[key] = exec.Start(exec.Local, exec.Parallelism(key))
+	}
+	r.runs[key] = 1
+	return r.sess[key]
 }
 
 // abandon forgets the session of par (after a hang: it may be wedged).
 func (r *runner) abandon(par int) { r.sess[par] = nil }
 
 func (r *runner) run(j job) result {
-	sess := r.session(j.par)
+	sess := r.session(j.sessKey())
 	ch := make(chan result, 1)
 	go func() {
 		defer func() {
@@ -97,7 +124,7 @@ func (r *runner) run(j job) result {
 	case res := <-ch:
 		return res
 	case <-t.C:
-		r.abandon(j.par)
+		r.abandon(j.sessKey())
 		return result{hung: true}
 	}
 }
@@ -112,6 +139,8 @@ type stats struct {
 	emptyShardRun int64
 	rowsScanned   int64
 	hangsRetried  int64
+	clusterRuns   int64
+	twoInvocations int64
 }
 
 // tally counts occurrences per key.
@@ -145,7 +174,7 @@ type checker struct {
 // sampleCategory names the kind of case a run is an example of ("" = none).
 func sampleCategory(j job, exp refeval.Expected) string {
 	p := j.p
-	if j.par != 4 || p.Src.Rows != refeval.Chunk+1 || p.Src.Shards != 3 || p.Src.Keys != refeval.KeysCollide {
+	if j.cluster || j.par != 4 || p.Src.Rows != refeval.Chunk+1 || p.Src.Shards != 3 || p.Src.Keys != refeval.KeysCollide {
 		return ""
 	}
 	switch {
@@ -193,6 +222,20 @@ func (c *checker) verdict(rn *runner, j job) ([]refeval.Mismatch, refeval.Expect
 	return refeval.Check(exp, res.out), exp, res
 }
 
+// srcClass is the class of the source the program's data comes from; for a
+// two-invocation program it also names the first invocation's operators and
+// the re-keying prefix.
+func srcClass(p refeval.Program) string {
+	if p.Shape == refeval.ShapeResult && p.Prev != nil {
+		parts := []string{p.Prev.Src.Class()}
+		for _, o := range p.Prev.Ops {
+			parts = append(parts, o.Class())
+		}
+		return fmt.Sprintf("{%s}/Prefixed(%d)", strings.Join(parts, "|"), p.N1)
+	}
+	return p.Src.Class()
+}
+
 func lastOpClass(p refeval.Program) string {
 	if len(p.Ops) == 0 {
 		return "source"
@@ -211,7 +254,7 @@ func (c *checker) report(rn *runner, j job, mm []refeval.Mismatch, exp refeval.E
 		if _, ok := q.Typecheck(); !ok || refeval.Eval(q).Undetermined {
 			continue
 		}
-		qj := job{q, j.par}
+		qj := job{q, j.par, j.cluster}
 		if m, e, r := c.verdict(rn, qj); len(m) > 0 {
 			min, minMM, minExp, minRes = qj, m, e, r
 			break
@@ -219,7 +262,7 @@ func (c *checker) report(rn *runner, j job, mm []refeval.Mismatch, exp refeval.E
 	}
 	oracle := minMM[0].Oracle
 	shape := strings.SplitN(min.p.Skeleton(), "/", 2)[0]
-	sig := fmt.Sprintf("C01/%s/%s/%s/%s", shape, min.p.Src.Class(), lastOpClass(min.p), oracle)
+	sig := fmt.Sprintf("C01/%s%s/%s/%s/%s", shape, min.execTag(), srcClass(min.p), lastOpClass(min.p), oracle)
 	// DESIGN.md §9 #8: is this exactly "ScanReader emits one spurious empty line first"?
 	if min.p.Src.Kind == refeval.SrcScanReader && minRes.err == nil && !minRes.hung {
 		alt := refeval.EvalWith(min.p, refeval.EvalOpts{ScanReaderSpuriousEmptyLine: true})
@@ -263,7 +306,7 @@ func (c *checker) report(rn *runner, j job, mm []refeval.Mismatch, exp refeval.E
 	for _, m := range minMM {
 		details = append(details, m.Oracle+": "+m.Detail)
 	}
-	what := fmt.Sprintf("program {%s} with Parallelism(%d): %s", min.p, min.par, details[0])
+	what := fmt.Sprintf("program {%s}%s with Parallelism(%d): %s", min.p, min.execTag(), min.par, details[0])
 	c.r.Violate(sig, what, map[string]interface{}{
 		"program":          min.p.String(),
 		"parallelism":      min.par,
@@ -278,8 +321,14 @@ func (c *checker) report(rn *runner, j job, mm []refeval.Mismatch, exp refeval.E
 
 func (c *checker) account(j job, exp refeval.Expected, res result) {
 	atomic.AddInt64(&c.st.evaluations, 1)
-	key := j.p.String()
+	key := j.p.String() + j.execTag()
 	c.programs.Add(key)
+	if j.cluster {
+		atomic.AddInt64(&c.st.clusterRuns, 1)
+	}
+	if j.p.Shape == refeval.ShapeResult {
+		atomic.AddInt64(&c.st.twoInvocations, 1)
+	}
 	if j.p.NumShuffles() > 0 {
 		atomic.AddInt64(&c.st.withShuffle, 1)
 		if res.err == nil && len(res.out.Rows) > 0 {
@@ -302,7 +351,7 @@ func (c *checker) account(j job, exp refeval.Expected, res result) {
 			atomic.AddInt64(&c.st.obsPartial, 1)
 		}
 	}
-	if j.p.Src.Rows < j.p.Src.Shards {
+	if s := j.p.FirstSource(); s.Rows < s.Shards {
 		atomic.AddInt64(&c.st.emptyShardRun, 1)
 	}
 	if cat := sampleCategory(j, exp); cat != "" {
@@ -316,7 +365,7 @@ func (c *checker) account(j job, exp refeval.Expected, res result) {
 		}
 		c.mu.Unlock()
 	}
-	c.srcRuns.Add(j.p.Src.Class())
+	c.srcRuns.Add(j.p.FirstSource().Class() + j.execTag())
 	for _, o := range j.p.Ops {
 		c.opRuns.Add(o.Class())
 	}
@@ -375,8 +424,11 @@ func (c *checker) runAll(phaseIdx int, jobs []job, workers int, budget time.Dura
 // over the representative data set (chunk+1 rows, colliding keys, 3 shards)
 // and the large Cogroup inputs.
 func tour(p refeval.Program) bool {
-	s := p.Src
-	return s.Rows > 128 || s.Rows == refeval.Chunk+1 && s.Keys == refeval.KeysCollide && s.Shards == 3
+	s := p.FirstSource()
+	if p.Shape == refeval.ShapeResult {
+		return s.Shards == 3 && s.Keys == refeval.KeysCollide
+	}
+	return s.Rows > 128 || s.Rows == 3*refeval.Chunk && s.Shards == 1 || s.Rows == refeval.Chunk+1 && s.Keys == refeval.KeysCollide && s.Shards == 3
 }
 
 func jobsOf(ps []refeval.Program, seed int64) []job {
@@ -384,7 +436,7 @@ func jobsOf(ps []refeval.Program, seed int64) []job {
 	for _, first := range []bool{true, false} {
 		for _, p := range ps {
 			if tour(p) == first {
-				jobs = append(jobs, job{p, 1}, job{p, 4})
+				jobs = append(jobs, job{p: p, par: 1}, job{p: p, par: 4})
 			}
 		}
 	}
@@ -407,9 +459,10 @@ func jobsOf(ps []refeval.Program, seed int64) []job {
 
 // phase is one job list run at one internal vector size.
 type phase struct {
-	chunk  int
-	jobs   []job
-	budget time.Duration
+	chunk   int
+	jobs    []job
+	budget  time.Duration
+	workers int // 0 = default
 }
 
 // space builds the job lists of the tier (deterministic: the supervisor and its
@@ -451,7 +504,7 @@ func space(thorough bool, seed int64) ([]phase, []string) {
 	// that groups straddle a full buffer and its refill.
 	big := refeval.Options{
 		NoShapes: true, MinDepth: 1,
-		Sources: []refeval.Source{{Kind: refeval.SrcConst, Schema: []refeval.Col{refeval.Int, refeval.Int}}},
+		Sources: []refeval.Source{{Kind: refeval.SrcConst, Schema: []refeval.Col{refeval.Int, refeval.Int}}, {Kind: refeval.SrcConst, Schema: []refeval.Col{refeval.Int, refeval.PtCol}}},
 		Sizes:   []int{2*128 + 1, 600}, Shards: []int{1, 2},
 		Alphabet: []refeval.Op{{Kind: refeval.OpCogroup, Var: refeval.CgSingle}, {Kind: refeval.OpCogroup, Var: refeval.CgSelf}, {Kind: refeval.OpCogroup, Var: refeval.CgSecond}},
 		Second:   []refeval.Source{{Kind: refeval.SrcConst, Rows: 300, Shards: 1, Keys: refeval.KeysDistinct}},
@@ -464,14 +517,97 @@ func space(thorough bool, seed int64) ([]phase, []string) {
 	}
 	ps = append(ps, bigPs...)
 	rule = append(rule, "(d) Cogroup:single/self/second (alone and followed by Map:groupsum) over Const<int,int> with 257 and 600 rows x key pattern{equal,distinct,colliding} x shards{1,2} (second input: 300 distinct rows in 1 shard): more than two of Cogroup's fixed 128-row merge buffers per shard")
-	rule = append(rule, "every program is run on the local executor with Parallelism 1 and with Parallelism 4; ORDER: first a tour (every program of the space whose sources have chunk+1 rows, colliding keys and 3 shards, and the programs of (d)), then everything else, each simplest first")
-	phases := []phase{{chunk: refeval.Chunk, jobs: jobsOf(ps, seed), budget: budget}}
+	ii := []refeval.Col{refeval.Int, refeval.Int}
+	ipt := []refeval.Col{refeval.Int, refeval.PtCol}
+	C := refeval.Chunk
+	// (e) Filter over inputs of several vectors per shard whose reader delivers
+	// EOF together with its last rows (ReaderFunc style 0/2, ScanReader, Fold
+	// output) or after them (style 1, Const), with predicates that reject rows.
+	filters := []refeval.Op{{Kind: refeval.OpFilter, Var: refeval.FilterAlt}, {Kind: refeval.OpFilter, Var: refeval.FilterMod3}, {Kind: refeval.OpFilter, Var: refeval.FilterNone}}
+	filt := refeval.Options{
+		NoShapes: true, MinDepth: 1, Alphabet: filters,
+		Sources: []refeval.Source{
+			{Kind: refeval.SrcReaderFunc, Schema: ii, Style: 0}, {Kind: refeval.SrcReaderFunc, Schema: ii, Style: 1},
+			{Kind: refeval.SrcReaderFunc, Schema: ii, Style: 2}, {Kind: refeval.SrcConst, Schema: ii},
+			{Kind: refeval.SrcScanReader, Schema: []refeval.Col{refeval.Str}, Style: 0}, {Kind: refeval.SrcScanReader, Schema: []refeval.Col{refeval.Str}, Style: 1},
+		},
+		Sizes: []int{2 * C, 2*C + 1, 3*C - 1, 3 * C, 3*C + 1, 4*C + 1}, Shards: []int{1, 2},
+	}
+	ps = append(ps, refeval.Enumerate(1, filt)...)
+	folded := filt
+	folded.Alphabet = []refeval.Op{{Kind: refeval.OpFold}}
+	folded.Sources = filt.Sources[:4]
+	for _, p := range refeval.Enumerate(1, folded) {
+		for _, f := range filters {
+			q := p
+			q.Ops = []refeval.Op{p.Ops[0], f}
+			ps = append(ps, q)
+		}
+	}
+	rule = append(rule, "(e) Filter:alt/mod3/none directly over ReaderFunc<int,int> (EOF with the last rows; one row per call then EOF; empty first call), Const<int,int> and ScanReader, and over Fold of the first four, rows{8,9,11,12,13,17} (2 to 4 vectors) x key patterns x shards{1,2}")
+	// (f) a column of a pointer-free struct type (gob encodes it field by field, omitting zero fields).
+	pt := refeval.Options{NoShapes: true, MinDepth: 0,
+		Sources: []refeval.Source{{Kind: refeval.SrcConst, Schema: ipt}, {Kind: refeval.SrcReaderFunc, Schema: ipt, Style: 0}}}
+	ps = append(ps, refeval.Enumerate(1, pt)...)
+	rule = append(rule, "(f) every chain of <=1 operator over Const<int,pt> and ReaderFunc<int,pt> (pt = struct{X,Y int32; Ok bool} whose fields are zero in some rows and non-zero in others) x all sizes, key patterns and shard counts of (a); (d) also over Const<int,pt>")
+	// (g) two invocations: the Result of the first is the input of the second,
+	// as it is or re-keyed with Prefixed(res, 1|2).
+	iii := []refeval.Col{refeval.Int, refeval.Int, refeval.Int}
+	var firsts []refeval.Program
+	for _, src := range (refeval.Options{Sources: []refeval.Source{{Kind: refeval.SrcConst, Schema: iii}, {Kind: refeval.SrcConst, Schema: ii}},
+		Sizes: []int{2*C + 1}, Shards: []int{2, 3, 4}, Keys: []refeval.Keys{refeval.KeysDistinct, refeval.KeysCollide}}).Configs() {
+		firsts = append(firsts, refeval.Program{Src: src})
+		if len(src.Schema) == 3 {
+			firsts = append(firsts, refeval.Program{Src: src, Ops: []refeval.Op{{Kind: refeval.OpPrefixReduce}}})
+		} else {
+			firsts = append(firsts, refeval.Program{Src: src, Ops: []refeval.Op{{Kind: refeval.OpReduce}}})
+		}
+	}
+	multi := refeval.ResultPrograms(firsts, []int{0, 1, 2}, refeval.FullAlphabet([]int{1, 2, 3}), 1)
+	for _, p := range refeval.ResultPrograms(firsts, []int{0, 1, 2}, refeval.FullAlphabet([]int{2}), 2) {
+		if p.Ops[0].IsShuffle() && p.Ops[1].Kind == refeval.OpWriterFunc {
+			multi = append(multi, p)
+		}
+	}
+	ps = append(ps, multi...)
+	rule = append(rule, "(g) two-invocation programs: first = Const<int,int,int> | Prefixed2Reduce | Const<int,int> | Reduce over 9 rows x {distinct,colliding} keys x shards{2,3,4}; second = every operator of the full alphabet (and every shuffle followed by WriterFunc) applied directly to the first Result, to Prefixed(res,1) and to Prefixed(res,2)")
+	rule = append(rule, "every program is run on the local executor with Parallelism 1 and with Parallelism 4; ORDER: first a tour (every program of the space whose sources have chunk+1 rows, colliding keys and 3 shards, the programs of (d), and of (e),(g) those over the largest data set), then everything else, each simplest first")
+	// (h) the in-process bigmachine cluster (2 machines): shuffles and the
+	// result scan go through the gob codec there.
+	var cl []refeval.Program
+	clOpts := refeval.Options{
+		Sources: []refeval.Source{{Kind: refeval.SrcConst, Schema: ii}, {Kind: refeval.SrcConst, Schema: ipt}, {Kind: refeval.SrcReaderFunc, Schema: ii, Style: 0}},
+		Sizes:   []int{2*C + 1, 4*C + 1}, Shards: []int{1, 3}, Keys: []refeval.Keys{refeval.KeysCollide},
+		ShapeSources: []refeval.Source{{Kind: refeval.SrcConst, Schema: ii}},
+	}
+	for _, p := range refeval.Enumerate(1, clOpts) {
+		// A zero-column result cannot be read back from the cluster; the known
+		// finding about shared side effects is recorded for the local executor.
+		if n := len(p.Ops); n > 0 && p.Ops[n-1].Kind == refeval.OpScan || p.Shape == refeval.ShapeSharedWriter {
+			continue
+		}
+		if p.Shape != refeval.ShapeChain && (p.Src.Rows != 2*C+1 || p.Src.Shards != 3) {
+			continue
+		}
+		cl = append(cl, p)
+	}
+	for _, p := range multi {
+		if s := p.FirstSource(); s.Shards == 3 && !(len(p.Ops) > 0 && p.Ops[len(p.Ops)-1].Kind == refeval.OpScan) {
+			cl = append(cl, p)
+		}
+	}
+	var cj []job
+	for _, p := range cl {
+		cj = append(cj, job{p: p, par: 4, cluster: true})
+	}
+	rule = append(rule, "(h) on the in-process bigmachine cluster (2 machines x 2 procs, Parallelism 4): every chain of <=1 operator over Const<int,int>, Const<int,pt>, ReaderFunc<int,int> x rows{9,17} x colliding keys x shards{1,3}; the fixed shapes over 9 rows in 3 shards; the two-invocation programs of (g) with 3 shards (programs ending in Scan excluded: a zero-column result cannot be read back there)")
+	phases := []phase{{chunk: refeval.Chunk, jobs: cj, budget: budget, workers: 8}, {chunk: refeval.Chunk, jobs: jobsOf(ps, seed), budget: budget}}
 	if thorough {
 		// One run of each depth<=1 program at the real vector size with 129 rows.
 		real := refeval.Enumerate(1, refeval.Options{Sizes: []int{129}, Shards: []int{1, 3}})
 		var rj []job
 		for _, p := range real {
-			rj = append(rj, job{p, 4})
+			rj = append(rj, job{p: p, par: 4})
 		}
 		rule = append(rule, "chunk=128: every program of depth <=1 (full alphabet, fixed shapes) over 129-row sources with 1 and 3 shards, Parallelism 4")
 		phases = append(phases, phase{chunk: 128, jobs: rj, budget: budget + 90*time.Second})
@@ -630,7 +766,7 @@ func debugOne(c *checker, sub string) {
 		for _, p := range ps {
 			c0, t0 := cpuNow(), time.Now()
 			for i := 0; i < 100; i++ {
-				c.verdict(rn, job{p, 4})
+				c.verdict(rn, job{p: p, par: 4})
 			}
 			fmt.Printf("%-110s cpu/run=%v wall/run=%v\n", p, (cpuNow()-c0)/100, time.Since(t0)/100)
 		}
@@ -642,7 +778,7 @@ func debugOne(c *checker, sub string) {
 		}
 		n++
 		for _, par := range []int{1, 4} {
-			mm, exp, res := c.verdict(rn, job{p, par})
+			mm, exp, res := c.verdict(rn, job{p: p, par: par})
 			fmt.Printf("%s par=%d\n  want(ordered=%v loose=%v): %v\n  got: %v err=%v\n  events: %v\n  mismatches: %v\n", p, par,
 				exp.OrderFixed, exp.Loose, refeval.CanonRows(exp.Rows), refeval.CanonRows(res.out.Rows), res.err, res.out.Events, mm)
 		}
